@@ -152,123 +152,139 @@ def check_checks(cx, chk):
 
 
 def check_char_and_extern(cx, chk):
+    """@char checks and @extern functions, read off the summaries of the rule functions (wrapsem.RuleView)."""
+    from . import wrapsem, semspec
+    from .. import sem
+    P1 = mir.mk("param", 1)
+    views = wrapsem.rule_views(cx)
     n_char = n_ext = 0
     for inst in cx.instances():
         uc = has_user_context(inst)
+        g = cx.grammar_of(inst)
         for rule, p in sorted(inst.rule_fns.items()):
-            b = cx.body(inst.crate, p)
-            vs = {v for (_, v, _) in agg_variants(b)}
-            traced = any(common.is_tracer_call(t["func"]) for _, t in b.calls())
-            if traced:
-                continue
+            gr = g.rule(rule) if g is not None else None
+            v = views.get((inst.name, rule))
             tag = "%s/%s" % (inst.name, rule)
-            if "ExpectedCharacterClass" in vs:
-                # char rule: find check calls = calls on the next character
-                checks = []
-                for i, t in b.calls():
-                    if t["func"].get("indirect") or not t["args"]:
-                        continue
-                    a0 = norm(b.expr_op(t["args"][0]))
-                    if a0[0] == "field" and a0[2] == "0" and a0[1][0] == "downcast" and a0[1][2] == "Some":
-                        src = a0[1][1]
-                        if is_call(src, "next") and is_call(src[2][0], "chars") and is_call(src[2][0][2][0], "s") and src[2][0][2][0][2][0] == ("param", 1):
-                            checks.append((i, t))
-                        else:
-                            chk.violation("C14.char", tag + " check-arg", "@char check is not applied to the next character of the entry state: %s" % mir.show(a0), cx.site(b, i))
-                if not checks:
-                    continue
-                n_char += len(checks)
+            b = cx.body(inst.crate, p)
+            vs = {vv for (_, vv, _) in agg_variants(b)}
+            is_char = (gr is not None and gr.kind == "char") or "ExpectedCharacterClass" in vs
+            is_ext = (gr is not None and gr.kind == "extern") or "ExternRuleFailed" in vs
+            if not (is_char or is_ext):
+                continue
+            if v is None or v.sm is None:
+                chk.violation("C14.char" if is_char else "C14.extern", tag + " unsummarised", "rule function could not be summarised: %s" % (v.problem if v else "?"), cx.site(b))
+                continue
+            leaves = [l for l in v.leaves if l.kind == "return"]
+            if is_char:
+                declared = [c.split("::")[-1] for c in (gr.checks if gr is not None else [])]
+                C = None
                 probs = []
-                attempts = [(i, t) for i, t in b.calls() if not t["func"].get("indirect") and last(t["func"]["path"]).startswith("parse_")]
-                for (ci, ct) in checks:
-                    ce = norm(b.expr_call(ct))
-                    for (ai, at_) in attempts:
-                        if not any(x == ce and v is True for (x, v, d) in b.atoms(ai)):
-                            probs.append("alternative %s is attempted without the check %s having succeeded" % (short(at_["func"]["path"]), short(ct["func"]["path"])))
-                    # false edge and None edge return the class error on the entry state
-                    sw = ct["target"]
-                    tt = b.blocks[sw]["term"]
-                    if tt["k"] != "switch":
-                        probs.append("check result is not branched on")
-                        continue
-                    false_t = [bb for (v, bb) in tt["targets"] if v == 0]
-                    for ft in false_t:
-                        rets = [d0 for d0 in b.defs.get(0, []) if d0[0] in b.reachable_from(ft) and d0[2] == "rv"]
-                        good = False
-                        for d0 in rets:
-                            e = norm(b.expr_rv(d0[3]))
-                            if e[0] == "agg" and e[2] == "Err" and is_call(e[3][0][1], "report_error") and e[3][0][1][2][0] == ("param", 1):
-                                good = True
+                n_calls = 0
+                for leaf in leaves:
+                    ues = v.user_events(leaf)
+                    # std char predicates (`char::is_lowercase`) are checks too: every call on the next character
+                    chk_calls = []
+                    for idx, ev in enumerate(leaf.trace):
+                        t = ev[0]
+                        if t[0] != "call" or not t[2]:
+                            continue
+                        a0 = t[2][0]
+                        if a0[0] == "field" and a0[2] == "0" and a0[1][0] == "downcast" and a0[1][2] == "Some" and is_call(a0[1][1], "next"):
+                            src = a0[1][1]
+                            if is_call(src[2][0], "chars") and is_call(src[2][0][2][0], "s") and src[2][0][2][0][2][0] == P1:
+                                chk_calls.append((idx, ev, src))
+                            else:
+                                probs.append("@char check is not applied to the next character of the entry state: %s" % mir.show(a0)[:80])
+                    attempts = [(i, ev) for (i, ev) in v.body_events(leaf)] + [(i, ev) for i, ev in enumerate(leaf.trace)
+                                                                             if ev[0][0] == "call" and last(ev[0][1]).startswith("parse_") and "peginator::" in ev[0][1]]
+                    first_attempt = min([i for (i, _) in attempts], default=None)
+                    truths = []
+                    for (idx, ev, src) in chk_calls:
+                        n_calls += 1
+                        t = ev[0]
+                        a_, pol = sem.canon(t)
+                        tv = leaf.facts.get(a_)
+                        tv = (tv == pol) if tv is not None else None
+                        truths.append((last(t[1]), tv, idx))
+                    if first_attempt is not None:
+                        ran = [nm for (nm, tv, idx) in truths if idx < first_attempt and tv is True]
+                        if declared and [nm for nm in ran] != declared:
+                            probs.append("alternative %s is attempted without the check method(s) %s having succeeded (saw %s)"
+                                         % (short(leaf.trace[first_attempt][0][1]), declared, ran))
+                    failed = [nm for (nm, tv, idx) in truths if tv is False]
+                    nochar = any(a[0] == "discr" and is_call(a[1], "next") and val == 0 for (a, val) in leaf.assume)
+                    if (failed or (nochar and declared)) :
+                        r = leaf.ret
+                        good = r is not None and r[0] == "agg" and r[2] == "Err" and is_call(r[3][0][1], "report_error") and r[3][0][1][2][0] == P1 \
+                            and r[3][0][1][2][1][0] == "agg" and r[3][0][1][2][1][2] == "ExpectedCharacterClass"
                         if not good:
                             probs.append("a failed @char check does not return the class error on the entry state")
-                if probs:
-                    for pr in sorted(set(probs)):
-                        chk.violation("C14.char", tag + " " + pr[:70], pr, cx.site(b))
-                else:
-                    chk.ok("C14.char", tag, {"rule": tag, "checks": [short(t["func"]["path"]) for _, t in checks]})
-            elif "ExternRuleFailed" in vs:
+                        if first_attempt is not None:
+                            probs.append("an alternative is attempted although a @char check failed")
+                    if any(tv is None for (nm, tv, idx) in truths):
+                        probs.append("check result is not branched on")
+                if declared:
+                    n_char += n_calls
+                    if n_calls == 0:
+                        probs.append("the rule declares checks %s but none is called on the next character" % declared)
+                    if probs:
+                        for pr in sorted(set(probs)):
+                            chk.violation("C14.char", tag + " " + pr[:70], pr, cx.site(b))
+                    else:
+                        chk.ok("C14.char", tag, {"rule": tag, "checks": declared})
+            else:
                 n_ext += 1
                 probs = []
-                user = [(i, t) for i, t in b.calls() if not t["func"].get("indirect")
-                        and t["func"]["krate"] not in ("peginator", "core", "std", "alloc")]
-                if len(user) != 1:
-                    probs.append("expected exactly one call of the user function, found %d" % len(user))
-                else:
-                    ui, ut = user[0]
-                    args = [norm(b.expr_op(a)) for a in ut["args"]]
-                    if not (args and is_call(args[0], "s") and args[0][2][0] == ("param", 1)):
-                        probs.append("the extern function does not receive s() of the entry state: %s" % (mir.show(args[0]) if args else "?"))
+                for leaf in leaves:
+                    ues = [(i, ev) for (i, ev) in v.user_events(leaf) if last(ev[0][1]) not in ("into", "from")]
+                    if len(ues) != 1:
+                        probs.append("expected exactly one call of the user function, found %d" % len(ues))
+                        continue
+                    U = ues[0][1][0]
+                    args = U[2]
+                    if not (args and is_call(args[0], "s") and args[0][2][0] == P1):
+                        probs.append("the extern function does not receive s() of the entry state: %s" % (mir.show(args[0])[:80] if args else "?"))
                     if uc:
-                        if not (len(args) == 2 and args[1] == ("field", ("param", 2), "user_context")):
+                        if not (len(args) == 2 and args[1] == mir.mk("field", mir.mk("param", 2), "user_context")):
                             probs.append("user context configured but not passed")
                     elif len(args) != 1:
                         probs.append("unexpected extra argument to the extern function")
-                    U = norm(b.expr_call(ut))
-                    rets = [norm(b.expr_rv(d0[3])) for d0 in b.defs.get(0, []) if d0[2] == "rv"]
-                    ok_ret = [r for r in rets if r[0] == "agg" and r[2] == "Ok"]
-                    err_ret = [r for r in rets if r[0] == "agg" and r[2] == "Err"]
-                    okpay = ("field", ("downcast", U, "Ok"), "0")
-                    good_ok = False
-                    for r in ok_ret:
-                        po = r[3][0][1]
-                        if po[0] == "agg" and po[1].endswith("ParseOk"):
-                            d = dict(po[3])
-                            res, st = d.get("result"), d.get("state")
-                            if is_call(res, "into") and res[2][0] == ("field", okpay, "0") and is_call(st, "advance_safe") \
-                                    and st[2][0] == ("param", 1) and st[2][1] == ("field", okpay, "1"):
-                                good_ok = True
-                    if not good_ok:
-                        probs.append("Ok((r, n)) is not turned into Ok(ParseOk{result: r.into(), state: entry.advance_safe(n)}): %s" % [mir.show(r) for r in ok_ret])
-                    good_err = False
-                    for r in err_ret:
-                        pe = r[3][0][1]
-                        if is_call(pe, "report_error") and pe[2][0] == ("param", 1) and pe[2][1][0] == "agg" and pe[2][1][2] == "ExternRuleFailed" \
-                                and pe[2][1][3][0][1] == ("field", ("downcast", U, "Err"), "0"):
-                            good_err = True
-                    if not good_err:
-                        probs.append("Err(e) is not turned into Err(entry.report_error(ExternRuleFailed{e})): %s" % [mir.show(r) for r in err_ret])
-                    # the rule matches EXACTLY when the function returns Ok: each return is decided by the function's
-                    # Ok/Err alone (no further condition), one return per outcome
-                    for d0 in b.defs.get(0, []):
-                        if d0[2] != "rv":
-                            probs.append("a return value is computed by a call")
-                            continue
-                        r = norm(b.expr_rv(d0[3]))
-                        at = b.atoms(d0[0])
-                        on_u = [(e, v) for (e, v, dd) in at if e[0] == "discr" and e[1] == U]
-                        others = [(e, v) for (e, v, dd) in at if not (e[0] == "discr" and e[1] == U)]
-                        want = 0 if (r[0] == "agg" and r[2] == "Ok") else 1
-                        if not on_u or any(v != want for (e, v) in on_u):
-                            probs.append("a rule %s is returned although the extern function returned %s" % ("success" if want == 0 else "failure", "Err" if want == 0 else "Ok"))
-                        if others:
-                            probs.append("the outcome of the rule depends on more than the function's Ok/Err: %s" % [mir.show(e)[:80] for (e, v) in others])
-                    if len(ok_ret) != 1 or len(err_ret) != 1:
-                        probs.append("expected exactly one Ok and one Err outcome, found %d/%d" % (len(ok_ret), len(err_ret)))
+                    others = [(a, val) for (a, val) in leaf.assume if a != mir.mk("discr", U)]
+                    if others:
+                        probs.append("the outcome of the rule depends on more than the function's Ok/Err: %s" % [mir.show(a)[:80] for (a, val) in others])
+                    k = semspec.discr_case(leaf, U)
+                    r = leaf.ret
+                    okpay = mir.mk("field", mir.mk("downcast", U, "Ok"), "0")
+                    if k == 0:
+                        good = False
+                        if r is not None and r[0] == "agg" and r[2] == "Ok":
+                            X = sem.get_field(r, "0")
+                            res, st = sem.get_field(X, "result"), sem.get_field(X, "state")
+                            src = res[2][0] if is_call(res, "into", "from") and res[2] else res
+                            if src == mir.mk("field", okpay, "0") and is_call(st, "advance_safe") and tuple(st[2]) == (P1, mir.mk("field", okpay, "1")):
+                                good = True
+                        if not good:
+                            probs.append("Ok((r, n)) is not turned into Ok(ParseOk{result: r.into(), state: entry.advance_safe(n)}): %s" % (mir.show(r)[:160] if r is not None else "?"))
+                        if r is not None and r[0] == "agg" and r[2] == "Err":
+                            probs.append("a rule failure is returned although the extern function returned Ok")
+                    elif k == 1:
+                        good = False
+                        if r is not None and r[0] == "agg" and r[2] == "Err":
+                            pe = r[3][0][1]
+                            if is_call(pe, "report_error") and pe[2][0] == P1 and pe[2][1][0] == "agg" and pe[2][1][2] == "ExternRuleFailed" \
+                                    and pe[2][1][3][0][1] == mir.mk("field", mir.mk("downcast", U, "Err"), "0"):
+                                good = True
+                        if not good:
+                            probs.append("Err(e) is not turned into Err(entry.report_error(ExternRuleFailed{e})): %s" % (mir.show(r)[:160] if r is not None else "?"))
+                        if r is not None and r[0] == "agg" and r[2] == "Ok":
+                            probs.append("a rule success is returned although the extern function returned Err")
+                    else:
+                        probs.append("the function's result is not examined")
                 if probs:
-                    for pr in probs:
+                    for pr in sorted(set(probs)):
                         chk.violation("C14.extern", tag + " " + pr.split(":")[0][:70], pr, cx.site(b))
                 else:
-                    chk.ok("C14.extern", tag, {"rule": tag, "fn": short(user[0][1]["func"]["path"])})
+                    chk.ok("C14.extern", tag, {"rule": tag, "paths": len(leaves)})
     chk.floor("C14.char", "@char check calls", n_char, 1)
     chk.floor("C14.extern", "@extern rule functions", n_ext, 3)
 
